@@ -47,7 +47,7 @@ def close_fails_sessions(rc):
 
 def run(ctx, pid):
     from harness.replay import connection as rc
-    consts = {"MaxId": 2, "InitFree": 1, "Reqs": {1, 2, 3}, "CPReqs": set() if ctx.quick else {3}, "MaxPages": 2,
+    consts = {"AnyId": False, "MaxId": 2, "InitFree": 1, "Reqs": {1, 2, 3}, "CPReqs": set() if ctx.quick else {3}, "MaxPages": 2,
               "CloseFailsSessions": True, "Busy": not ctx.quick}
     inv = C09_INV + C10_INV
     # the intended design (close() fails paging sessions too) must satisfy the properties
@@ -95,7 +95,7 @@ def run(ctx, pid):
     ctx.note("coverage_zero_actions", zero)
 
     if not ctx.quick:
-        big = {"MaxId": 3, "InitFree": 2, "Reqs": {1, 2, 3, 4}, "CPReqs": {3, 4}, "MaxPages": 2, "CloseFailsSessions": intended, "Busy": True}
+        big = {"AnyId": False, "MaxId": 3, "InitFree": 2, "Reqs": {1, 2, 3, 4}, "CPReqs": {3, 4}, "MaxPages": 2, "CloseFailsSessions": intended, "Busy": True}
         bcfg = tlc.write_cfg(os.path.join(ctx.scratch, "conn_big.cfg"), constants=big, invariants=inv,
                              properties=C10_PROPS, deadlock=False)
         bres = tlc.check_model("Connection", bcfg, ctx.scratch, timeout=3000)
@@ -129,7 +129,7 @@ def run(ctx, pid):
         return list(v.values()) if isinstance(v, dict) else list(v)
     WIT = {
         "Witness_LateResponse": lambda c, n: n["act"]["name"] == "RespondLate",
-        "Witness_Grow": lambda c, n: n["highest"] == c["MaxId"] - 1 and n["highest"] > c["InitFree"] - 1,
+        "Witness_Grow": lambda c, n: len(n["avail"]) == 1 and not (n["defunct"] or n["closed"]),
         "Witness_SessionOpen": lambda c, n: len(fnv(n["cps"])) > 0,
         "Witness_Busy": lambda c, n: not (n["defunct"] or n["closed"]) and "refused" in fnv(n["st"]),
         "Witness_StaleTimeout": lambda c, n: n["act"]["name"] == "TimeoutStale",
@@ -181,8 +181,8 @@ def run(ctx, pid):
     ctx.note("behaviours_replayed", replayed)
 
     # ---- code -> spec: recorded random runs validated by TLC against Trace_Connection.tla
-    tconsts = {"MaxId": 3, "InitFree": 1, "Reqs": {1, 2, 3, 4}, "CPReqs": {4}, "MaxPages": 3} if ctx.quick else \
-        {"MaxId": 3, "InitFree": 2, "Reqs": {1, 2, 3, 4, 5}, "CPReqs": {2, 4}, "MaxPages": 3}
+    tconsts = {"AnyId": True, "MaxId": 3, "InitFree": 1, "Reqs": {1, 2, 3, 4}, "CPReqs": {4}, "MaxPages": 3} if ctx.quick else \
+        {"AnyId": True, "MaxId": 3, "InitFree": 2, "Reqs": {1, 2, 3, 4, 5}, "CPReqs": {2, 4}, "MaxPages": 3}
     tconsts["CloseFailsSessions"] = intended
     tconsts["Busy"] = True
     n_tr = 300 if ctx.quick else 4000
